@@ -39,6 +39,8 @@ TsMsDigits(i, ms) == LET t == TsOf(i) IN
 Ordinalize(L, n) == DecN(n) \o L.ord_suffix[L.ord_cat[n + 1]]
 Tokens == {"YYYY", "YY", "Y", "Q", "Qo", "MMMM", "MMM", "MM", "M", "Mo", "DDDD", "DDD", "DD", "D", "Do", "dddd", "ddd", "dd", "d", "E",
            "HH", "H", "hh", "h", "mm", "m", "ss", "s", "S", "SS", "SSS", "SSSS", "SSSSS", "SSSSSS", "A", "Z", "ZZ", "z", "zz", "X", "x"}
+\* tokens the formatter implements but the documentation does not list: part of the specification's extension
+ExtTokens == {"DDDo", "wo", "do"}
 TokText(tok, v, zname, L) ==
   LET w == v.w
       n == Ord(w[1], w[2], w[3])
@@ -52,7 +54,8 @@ TokText(tok, v, zname, L) ==
        [] tok = "Q" -> DecN(Quarter(w[2]))  [] tok = "Qo" -> Ordinalize(L, Quarter(w[2]))
        [] tok = "MMMM" -> L.months_wide[w[2]]  [] tok = "MMM" -> L.months_abbr[w[2]]
        [] tok = "MM" -> Pad2(w[2])  [] tok = "M" -> DecN(w[2])  [] tok = "Mo" -> Ordinalize(L, w[2])
-       [] tok = "DDDD" -> Pad3(doy)  [] tok = "DDD" -> DecN(doy)
+       [] tok = "DDDD" -> Pad3(doy)  [] tok = "DDD" -> DecN(doy)  [] tok = "DDDo" -> Ordinalize(L, doy)
+       [] tok = "wo" -> Ordinalize(L, IsoCal(n)[2])  [] tok = "do" -> Ordinalize(L, (dow + 1) % 7)
        [] tok = "DD" -> Pad2(w[3])  [] tok = "D" -> DecN(w[3])  [] tok = "Do" -> Ordinalize(L, w[3])
        [] tok = "dddd" -> L.days_wide[dow + 1]  [] tok = "ddd" -> L.days_abbr[dow + 1]  [] tok = "dd" -> L.days_short[dow + 1]
        [] tok = "d" -> DecN((dow + 1) % 7)  [] tok = "E" -> DecN(dow + 1)
